@@ -66,6 +66,7 @@ def build(extra_mods=(), force_assumed=()):
     insertion_only = True
     lost_all = []
     d1 = []
+    unsup = []
     extracted = {}
     all_twins = []
     for m in mods:
@@ -76,7 +77,8 @@ def build(extra_mods=(), force_assumed=()):
             for t in twins:
                 t['module'] = m
             d1 += [t for t in twins if 'd1_type' in t]
-            all_twins += [t for t in twins if 'd1_type' not in t]
+            unsup += [t for t in twins if 'unsupported_fn_pos' in t]
+            all_twins += [t for t in twins if 'd1_type' not in t and 'unsupported_fn_pos' not in t]
             extracted[m] = src
         except Unsupported as e:
             raise Undecided('extraction: %s: %s' % (m, e))
@@ -85,6 +87,21 @@ def build(extra_mods=(), force_assumed=()):
         except Exception as e:  # lexer confusion etc.
             raise Undecided('extraction: %s: %r' % (m, e))
         logs[m] = lg
+    for t in unsup:
+        fns_, _m = index_functions(extracted[t['module']])
+        for q_, (kw_, bo_, bc_) in fns_.items():
+            if kw_ == t['unsupported_fn_pos']:
+                name_ = t['module'] + '::' + q_
+                hit_ = [c for c in allc if c.name == name_]
+                if not hit_:
+                    from splice import FnContract
+                    c_ = FnContract(name_)
+                    allc.append(c_)
+                    by_mod.setdefault(t['module'], []).append(c_)
+                    hit_ = [c_]
+                hit_[0].assumed = 'UNSUPPORTED CONSTRUCT: ' + t['why']
+                hit_[0].lost = True
+                lost_all.append((name_, t['why']))
     for m in mods:
         src = h2_callsites(extracted[m], all_twins, logs[m])
         spliced, lost = splice_module(m, src, by_mod.get(m, []), registry)
@@ -299,3 +316,21 @@ def classify(res, text, registry):
         failures.append({'msg': msg, 'line': line, 'fn': fn, 'oid': oid, 'tags': tags, 'kind': kind,
                          'pragma': pragma_at(line), 'rendered': rendered[:4000]})
     return failures, tool
+
+
+def retry_function(text, fn, seeds=(1, 2, 3)):
+    """Re-verify one function in isolation with other SMT seeds and 4x rlimit.  Returns the first seed under
+    which the whole function verifies, else None.  Results are cached by content hash like the main run."""
+    parts = re.split(r'::(?![^<]*>)', fn)
+    module = parts[0]
+    name = parts[-1] if len(parts) <= 2 else parts[1] + '::' + parts[-1]
+    for s in seeds:
+        res = run_verus(text, extra_args=['--verify-only-module', module, '--verify-function', name,
+                                          '--smt-option', 'smt.random_seed=%d' % s, '--rlimit', '120'], tag='retry')
+        out = res.get('out') or {}
+        vr = out.get('verification-results', {})
+        if vr and not vr.get('encountered-error') and vr.get('verified', 0) >= 1 and not vr.get('errors'):
+            return s
+        if not vr:
+            return None
+    return None
